@@ -57,7 +57,7 @@ def gen_trials(ctx, nsc, per, tag="sc"):
     scen = []
     for i in range(nsc):
         r = rng.fork("s%d" % i)
-        crash = r.choice([1, 1, 0, 2, 2])
+        crash = r.choice([1, 1, 1, 0, 2, 3])
         mode, ops = T.gen_scenario(r, crash)
         scen.append((r, crash, mode, ops))
     # probe run: at which steps does the crash node have user events pending?
